@@ -3694,7 +3694,13 @@ impl TryFrom<RawFont> for Font {
         }
 
         let units_per_em = from.units_per_em.ok_or(Error::NoUnitsPerEm)?;
-        let units_per_em = units_per_em.try_into().map_err(Error::InvalidUpem)?;
+        let units_per_em: u16 = units_per_em.try_into().map_err(Error::InvalidUpem)?;
+        // Per <https://learn.microsoft.com/en-us/typography/opentype/spec/head>, 16..16384
+        if !(16..=16384).contains(&units_per_em) {
+            return Err(Error::BadValue(format!(
+                "unitsPerEm {units_per_em} is outside 16..=16384"
+            )));
+        }
 
         let mut all_names = BTreeMap::new();
         update_names(&mut all_names, &from.properties);
